@@ -659,6 +659,14 @@ def _oneshot_table():
     ST = reg["SystemTimeValue"]
     return {
         "into": (lambda Q: Q.into(t), lambda q: q.into(T("x")), AttributeError),
+        # the same one-shot call repeated on builders in every other state that still has the attribute set
+        "into-after-select-into": (lambda Q: Q.from_(t).select(t.a).into(T("d1")), lambda q: q.into(T("x")), AttributeError),
+        "into-after-into-select": (lambda Q: Q.into(T("d1")).from_(t).select(t.a), lambda q: q.into(T("x")), AttributeError),
+        "into-after-into-insert": (lambda Q: Q.into(T("d1")).insert(1), lambda q: q.into(T("x")), AttributeError),
+        "into-after-into-columns": (lambda Q: Q.into(T("d1")).columns("a"), lambda q: q.into(T("x")), AttributeError),
+        "update-after-update-set": (lambda Q: Q.update(t).set(t.a, 1).where(t.b == 2), lambda q: q.update(T("x")), AttributeError),
+        "delete-after-delete-where": (lambda Q: Q.from_(t).delete().where(t.a == 1), lambda q: q.delete(), AttributeError),
+        "primary_key-after-unique": (lambda Q: Q.create_table(t).columns("a", "b").primary_key("a").unique("b"), lambda q: q.primary_key("b"), AttributeError),
         "update": (lambda Q: Q.update(t), lambda q: q.update(T("x")), AttributeError),
         "delete": (lambda Q: Q.from_(t).delete(), lambda q: q.delete(), AttributeError),
         "delete-after-select": (lambda Q: Q.from_(t).select(t.a), lambda q: q.delete(), AttributeError),
@@ -689,7 +697,8 @@ def _oneshot_table():
     }
 
 
-ONE_SHOT = ["into", "update", "delete", "delete-after-select", "update-after-select", "update-after-delete", "delete-after-update",
+ONE_SHOT = ["into-after-select-into", "into-after-into-select", "into-after-into-insert", "into-after-into-columns", "update-after-update-set",
+            "delete-after-delete-where", "primary_key-after-unique", "into", "update", "delete", "delete-after-select", "update-after-select", "update-after-delete", "delete-after-update",
             "create_table", "primary_key", "columns-after-as_select", "as_select-after-columns", "drop_table", "rollup-after-mysql-rollup",
             "mysql-rollup-without-groupby", "for_", "for_portion", "for_-after-for_portion", "for_portion-after-for_", "rows-twice",
             "range-after-rows", "insert-without-into", "columns-without-into", "select-str-without-from", "join-without-criterion",
